@@ -136,7 +136,7 @@ def correspondence(ctx):
     else:
         cases += scope
         res.exhaustive = True
-    for _ in range(ctx.n(900, 9000)):
+    for _ in range(ctx.n(900, 25000)):
         cases.append(gen_tree_case(rng, malformed=False))
     for _ in range(ctx.n(150, 1500)):
         cases.append(gen_tree_case(rng, malformed=True))
